@@ -1,10 +1,12 @@
-/- Driver ops for BinPack.  Ops: bin_pack.{state,step,judge,instance,bounds,boundscheck}.
+/- Driver ops for BinPack.  Ops: bin_pack.{state,step,judge,instance,bounds,boundscheck,spec}.
    cfg = {"obs_num_ems": nat, "normalize": bool, "dense": bool, "f32": bool, "tol": rat,
-          "container_dims": [x, y, z]} -/
+          "container_dims": [x, y, z], "max_num_items": nat (wave 4: needed by `spec` and the membership keys of `state`)} -/
 import JumanjiModel.Bridge.Json
 import JumanjiModel.Env.BinPack.Model
 import JumanjiModel.Env.BinPack.Bounds
 import JumanjiModel.Prim.Float
+import JumanjiModel.Env.BinPack.Spec
+import JumanjiModel.Bridge.Spec
 open Lean Jb
 
 namespace Jb.BinPack
@@ -23,6 +25,13 @@ def getConf (j : Json) : Except String Conf := do
          rnd := if f32 then Jx.roundF32 else id
          tol := ← fRat c "tol"
          dims := ← fInts c "container_dims" }
+
+def getDims (c : Conf) : Except String Dims :=
+  match c.dims with
+  | [x, y, z] => pure ⟨x, y, z⟩
+  | _ => throw "container_dims must be [x, y, z]"
+
+def jNValue (v : Sp.NValue) : Json := jList (fun (e : String × Sp.Arr) => jObj [("key", jStr e.1), ("value", SpecOps.jArr e.2)]) v
 
 /-- struct of arrays → list of structs; all arrays must have the same length -/
 def zip6 (what : String) (a b c d e f : List Int) : Except String (List Space) := do
@@ -143,14 +152,26 @@ def opState : Op := fun j => do
   let c ← getConf j
   let s ← getState (← field j "state")
   let feas := decide (Feasible s)
-  pure (jObj [("mask", jBools (maskOf c.cfg c.rnd s).flatten),
+  -- wave 4 (C01 membership), when the configuration carries `max_num_items`: the timestep `reset` builds on this state
+  -- (`restart(_make_observation_and_extras(state))`), the L1 observation as spec-level arrays (`toNValue`), its membership
+  -- in the model's `obsSpec`, and the invariant `SpecInv` behind `binpack_step_obs_valid`
+  let w4 : List (String × Json) ← match ← fOpt (← field j "cfg") "max_num_items" getNat with
+    | some n => do
+      let dm ← getDims c
+      let o := (makeObs c.cfg c.rnd s).2
+      pure [("reset_ts", jTimeStep (jObs c.cfg.normalize) (Jm.restart o)),
+            ("nvalue", jNValue (toNValue c.cfg.normalize o)),
+            ("obs_in_spec", jBool ((obsSpec c.cfg n dm).valid (toNValue c.cfg.normalize o))),
+            ("spec_inv", jBool (decide (SpecInv c.cfg n dm s)))]
+    | none => pure []
+  pure (jObj ([("mask", jBools (maskOf c.cfg c.rnd s).flatten),
               ("legal", jBools (legalMask c.cfg c.rnd s).flatten),
               ("obs", jObs c.cfg.normalize (observe c.cfg c.rnd s)),
               ("feasible", jBool feas),
               ("items_feasible", jBool (decide (ItemsFeasible s))),
               ("fresh", jBool (decide (Fresh c.cfg c.rnd s))),
               ("solution", jBool (feas && completeB c.cfg c.rnd s)),
-              ("objective", jRat (utilisation s))])
+              ("objective", jRat (utilisation s))] ++ w4))
 
 def getObsLoose (_ : Json) : Except String Unit := pure ()
 
@@ -196,7 +217,14 @@ def opInstance : Op := fun j => do
                ("items_positive", jBool (decide (ItemsPositive s))),
                ("volumes_add_up", jBool (decide (presentVolume s = s.container.volume))),
                ("reset_feasible", jBool (decide (Feasible s))),
-               ("reset_fresh", jBool (decide (Fresh c.cfg c.rnd s)))]
+               ("reset_fresh", jBool (decide (Fresh c.cfg c.rnd s)))] ++
+    -- wave 4: the model's `reset` (Env/BinPack/Bounds.lean) replayed on the draws read off the state (items, item mask,
+    -- buffer size) gives this very state, and the draws satisfy `validReset` (hypotheses of `binpack_reset_obs_valid`)
+    (match c.dims with
+     | [x, y, z] =>
+       [("reset_replay", jBool (decide ((reset c.cfg c.rnd ⟨x, y, z⟩ s.ems.length s.items s.itemsMask).1 = s))),
+        ("reset_draw_valid", jBool (decide (validReset ⟨x, y, z⟩ s.items.length s.items s.itemsMask)))]
+     | _ => [])
   match sj.getObjVal? "solution" with
   | .ok solj =>
     let sol ← getState solj
@@ -209,11 +237,6 @@ def opInstance : Op := fun j => do
 def jBounds (t : Jm.OB.Table) : Json :=
   jObj (t.map fun e => (e.1, jObj [("lo", match e.2.1 with | some r => jRat r | none => Json.null),
                                    ("hi", match e.2.2 with | some r => jRat r | none => Json.null)]))
-
-def getDims (c : Conf) : Except String Dims :=
-  match c.dims with
-  | [x, y, z] => pure ⟨x, y, z⟩
-  | _ => throw "container_dims must be [x, y, z]"
 
 /-- {"cfg": {...}} → {leaf path: {"lo": rat|null, "hi": rat|null}}: the proved observation bounds (C01) -/
 def opBounds : Op := fun j => do
@@ -233,7 +256,18 @@ def opBoundsCheck : Op := fun j => do
     | none => pure Json.null
   pure (jObj [("inv", jBool (decide (BoundsInv dm s))), ("draw_all", dr)])
 
+/-- {cfg (with max_num_items)} → the model's `obsSpec`, `actionSpec`, reward and discount spec in the `speclib.leaf_json` layout -/
+def opSpec : Op := fun j => do
+  let c ← getConf j
+  let n ← fNat (← field j "cfg") "max_num_items"
+  let dm ← getDims c
+  pure (jObj [("observation_spec", SpecOps.jNested (obsSpec c.cfg n dm)), ("action_spec", SpecOps.jLeaf (actionSpec c.cfg n)),
+              ("reward_spec", SpecOps.jLeaf PzS.rewardSpec), ("discount_spec", SpecOps.jLeaf PzS.discountSpec),
+              ("action_spec_wf", jBool (actionSpec c.cfg n).WF),
+              ("generate_value", SpecOps.jArr (actionSpec c.cfg n).generate)])
+
 def ops : List (String × Op) :=
   [("bin_pack.step", opStep), ("bin_pack.state", opState), ("bin_pack.judge", opJudge),
-   ("bin_pack.instance", opInstance), ("bin_pack.bounds", opBounds), ("bin_pack.boundscheck", opBoundsCheck)]
+   ("bin_pack.instance", opInstance), ("bin_pack.bounds", opBounds), ("bin_pack.boundscheck", opBoundsCheck),
+   ("bin_pack.spec", opSpec)]
 end Jb.BinPack
